@@ -85,6 +85,7 @@ EpsReady(e) ==
       [] e = "e3" -> {"2"}
       [] e = "e4" -> {"1", "2", "3"}
       [] e = "e5" -> {"1", "4"}
+      [] e = "e6" -> {"1"}
       [] OTHER -> {}
 
 InitEps(s) == IF s = "s1" THEN "e1" ELSE "e2"
@@ -96,6 +97,7 @@ EpsNotReady(e) ==
       [] e = "e3" -> {"3"}
       [] e = "e4" -> {}
       [] e = "e5" -> {}
+      [] e = "e6" -> {"2"}
       [] OTHER -> {}
 
 PathChars(p) ==
